@@ -337,29 +337,24 @@ def loadAscii (cs : Str) : Option (List ADec) :=
 
 /-! ## 6. `_skipop4_ascii` and `dir` -/
 
-def skipStrs (big : Bool) (wper perline : Nat) : Nat → Nat → List Str → Option (List Str)
-  | _, 0, ls => some ls
-  | 0, _ + 1, _ => none
-  | fuel + 1, elems + 1, ls =>
+/-- `while elems > 0` of the two sparse branches of `_skipop4_ascii`, in Python's integer arithmetic
+(nothing is checked there: a negative length makes `elems` grow and skips no line) -/
+def skipStrs (big : Bool) (wper perline : Nat) : Nat → Int → List Str → Option (List Str)
+  | 0, _, _ => none
+  | fuel + 1, elems, ls =>
+    if elems ≤ 0 then some ls else
     match ls with
     | [] => none
     | line :: ls1 =>
-      if big then
-        match pyInt? (slice line 0 8) with
-        | some L1 =>
-          if L1 < 1 then none else
-          let L := (L1 - 1).toNat
-          skipStrs big wper perline fuel (elems + 1 - (L + 2)) (ls1.drop ((L / wper + perline - 1) / perline))
-        | none => none
-      else
-        match pyInt? line with
-        | some ISi =>
-          if ISi < 0 then none else
-          let IS := ISi.toNat
-          if IS >>> isShiftR = 0 then none else
-          let L := (IS >>> isShiftR) - 1
-          skipStrs big wper perline fuel (elems + 1 - (L + 1)) (ls1.drop ((L / wper + perline - 1) / perline))
-        | none => none
+      match (if big then pyInt? (slice line 0 8) else pyInt? line) with
+      | none => none
+      | some v =>
+        -- `L = int(line[c_slice]) - 1`, or `L = (IS >> 16) - 1` (floor, also for a negative `IS`)
+        let L : Int := if big then v - 1 else v / ((2 ^ isShiftR : Nat) : Int) - 1
+        let used : Int := if big then L + 2 else L + 1
+        -- `L //= wper; nlines = (L + perline - 1) // perline`; `itertools.repeat(None, n)`, `n < 0`: nothing
+        let n := ((L / (wper : Int) + (perline : Int) - 1) / (perline : Int)).toNat
+        skipStrs big wper perline fuel (elems - used) (ls1.drop n)
 
 /-- the three `while c < cols` loops of `_skipop4_ascii`; `kind = 0` dense (`r > 0`), `1` bigmat,
 `2` nonbigmat.  Returns the lines after the line that ended the loop. -/
@@ -373,7 +368,7 @@ def skipCols (kind : Nat) (wper perline : Nat) (cols : Int) : Nat → Int → St
           if kind = 0 then
             -- `(elems + perline - 1) // perline` lines; `itertools.repeat(None, n)` with `n < 0` repeats nothing
             some (ls.drop ((elems + (perline : Int) - 1) / (perline : Int)).toNat)
-          else skipStrs (kind = 1) wper perline ls.length elems.toNat ls
+          else skipStrs (kind = 1) wper perline (ls.length + 1) elems ls
         match after with
         | some (line' :: ls2) =>
           match pyInt? (slice line' 0 8) with
